@@ -1,4 +1,4 @@
-import RsslVerif.Lemmas.ProjX
+import RsslVerif.Lemmas.PlaceX
 import RsslVerif.Lemmas.Overload
 import RsslVerif.Thm.C03
 import RsslVerif.Model.Intrinsics
@@ -18,7 +18,7 @@ open RsslVerif.Model.Elab (Err enforceIncrement)
 open RsslVerif.Model.IrTypingX RsslVerif.Model.ElabX RsslVerif.Model.StmtX RsslVerif.Spec.ElabX
 open RsslVerif.Lemmas.ElabConv RsslVerif.Lemmas.ElabX RsslVerif.Lemmas.ElabFormsX RsslVerif.Lemmas.ElabExactX
 open RsslVerif.Lemmas.ElabReleaseX RsslVerif.Lemmas.ElabNewX RsslVerif.Lemmas.ElabSoundX RsslVerif.Lemmas.StmtX
-open RsslVerif.Lemmas.Overload RsslVerif.Spec.Overload RsslVerif.Lemmas.ProjX
+open RsslVerif.Lemmas.Overload RsslVerif.Spec.Overload RsslVerif.Lemmas.ProjX RsslVerif.Lemmas.PlaceX
 
 /-! ## soundness -/
 
@@ -293,42 +293,44 @@ theorem elab_assign_exact {Γ : Env} {dbg : Bool} {o : BinOp} {a b : SExpr} {e' 
           · simp at hn
           · split at hn
             · simp at hn
-            · simp at hn
             · split at hn
               · simp at hn
-              · rename_i i hi
-                split at hn
+              · simp at hn
+              · split at hn
                 · simp at hn
-                · rename_i out hout
-                  simp only [Except.ok.injEq, Prod.mk.injEq] at hn
-                  obtain ⟨rfl, rfl⟩ := hn
-                  obtain ⟨_, _, hl⟩ := binop_rules o i hi
-                  obtain ⟨hsame, _, _⟩ := binop_rules o i hi
-                  obtain ⟨ta, tb, h1, h2, h3, h4⟩ := assignment_operands ⟨hl ho, hsame⟩ hs
-                  have hta : ta = τa := by
-                    have e1 := typeOf_of_hasType _ _ h1
-                    have e2 := typeOf_of_hasType _ _ iha
-                    rw [e1] at e2; simpa using e2
-                  subst hta
-                  refine ⟨i, _, _, ta, tb, rfl, h1, h2, h3, h4, by simpa using hconst, ?_⟩
-                  -- the result type is the left operand's type
-                  have := typeOf_of_hasType _ _ hs
-                  cases hs with
-                  | op hargs hret =>
-                    cases hargs with
-                    | cons ha' hr =>
-                      cases hr with
-                      | cons hb' hn' =>
-                        cases hn'
-                        have e1 := typeOf_of_hasType _ _ ha'
-                        have e2 := typeOf_of_hasType _ _ h1
-                        rw [e1] at e2
-                        simp at e2; subst e2
-                        have hres : i.rule.result = .arg0 := by
-                          cases o <;> simp [BinOp.cls] at ho <;> simp [BinOp.toIOp] at hi <;> subst hi <;> rfl
-                        simp only [opReturn, hres] at hret
-                        repeat' split at hret
-                        all_goals (first | (simp at hret; done) | (simp at hret; exact hret.symm))
+                · rename_i i hi
+                  split at hn
+                  · simp at hn
+                  · rename_i out hout
+                    simp only [Except.ok.injEq, Prod.mk.injEq] at hn
+                    obtain ⟨rfl, rfl⟩ := hn
+                    obtain ⟨_, _, hl⟩ := binop_rules o i hi
+                    obtain ⟨hsame, _, _⟩ := binop_rules o i hi
+                    obtain ⟨ta, tb, h1, h2, h3, h4⟩ := assignment_operands ⟨hl ho, hsame⟩ hs
+                    have hta : ta = τa := by
+                      have e1 := typeOf_of_hasType _ _ h1
+                      have e2 := typeOf_of_hasType _ _ iha
+                      rw [e1] at e2; simpa using e2
+                    subst hta
+                    refine ⟨i, _, _, ta, tb, rfl, h1, h2, h3, h4, by simpa using hconst, ?_⟩
+                    -- the result type is the left operand's type
+                    have := typeOf_of_hasType _ _ hs
+                    cases hs with
+                    | op hargs hret =>
+                      cases hargs with
+                      | cons ha' hr =>
+                        cases hr with
+                        | cons hb' hn' =>
+                          cases hn'
+                          have e1 := typeOf_of_hasType _ _ ha'
+                          have e2 := typeOf_of_hasType _ _ h1
+                          rw [e1] at e2
+                          simp at e2; subst e2
+                          have hres : i.rule.result = .arg0 := by
+                            cases o <;> simp [BinOp.cls] at ho <;> simp [BinOp.toIOp] at hi <;> subst hi <;> rfl
+                          simp only [opReturn, hres] at hret
+                          repeat' split at hret
+                          all_goals (first | (simp at hret; done) | (simp at hret; exact hret.symm))
 
 /-- **Accepted arithmetic / comparison / bit / logical operators** receive two operands of exactly the same type -/
 theorem elab_arith_exact {Γ : Env} {dbg : Bool} {o : BinOp} {a b : SExpr} {e' : IExpr} {τ : ETy} (ho : o.cls = .arith)
@@ -366,28 +368,11 @@ theorem elab_call_args_exact {Γ : Env} {dbg : Bool} {name : Nat} {args : SArgs}
     (h : elabE dbg Γ (.call name args) = .ok (e', τ)) :
     ∃ id s as' us, e' = .call id as' ∧ Γ.funcs[id]? = some s ∧ τ = s.ret.r ∧ HasArgs Γ as' us ∧
       ArgsMatch us s.params := by
-  simp only [elabE] at h
-  split at h
-  · simp at h
-  · split at h
-    · simp at h
-    · split at h
-      · simp at h
-      · rename_i as1 ts ha
-        have iha := elabArgs_sound_any dbg args as1 ts ha
-        split at h
-        · simp at h
-        · rename_i n τn hn
-          obtain ⟨rfl, rfl⟩ := selfCheck_type h
-          unfold elabCall at hn
-          repeat' split at hn
-          all_goals (first | (simp at hn; done) | skip)
-          all_goals (
-            simp only [Except.ok.injEq, Prod.mk.injEq] at hn
-            obtain ⟨rfl, rfl⟩ := hn
-            rename_i id _ _ s hs _ as'' hca
-            obtain ⟨us, h1, h2⟩ := castArgs_exact s.params as1 ts as'' iha hca
-            exact ⟨id, s, as'', us, rfl, hs, rfl, h1, h2⟩)
+  obtain ⟨as1, ts, ha, hn⟩ := elabE_call_inv h
+  have iha := elabArgs_sound_any dbg args as1 ts ha
+  obtain ⟨id, s, as'', _, hs, hca, _, rfl, rfl⟩ := elabCall_inv hn
+  obtain ⟨us, h1, h2⟩ := castArgs_exact s.params as1 ts as'' iha hca
+  exact ⟨id, s, as'', us, rfl, hs, rfl, h1, h2⟩
 
 /-- writes to the source forms the property lists (literal, `a + b`, function result, and casts, `?:`, `a++`, `-a`, ...)
     are never accepted -/
@@ -613,32 +598,6 @@ theorem elab_rejects_readonly_resource_write_chain {Γ : Env} {dbg : Bool} {o : 
     obtain ⟨n, τ'⟩ := p
     exact elab_rejects_assign_to_const ho hm (chain_readOnlyRes hb hc hm).1 r h
 
-def SArgs.toList : SArgs → List SExpr
-  | .nil => []
-  | .cons e r => e :: SArgs.toList r
-
-theorem elabArgs_get {Γ : Env} {dbg : Bool} : ∀ (args : SArgs) (args' : IArgs) (ts : List ETy) (i : Nat) (e : SExpr),
-    elabArgs dbg Γ args = .ok (args', ts) → (SArgs.toList args)[i]? = some e →
-    ∃ e' τ, elabE dbg Γ e = .ok (e', τ) ∧ ts[i]? = some τ
-  | .nil, _, _, i, e, _, hi => by simp [SArgs.toList] at hi
-  | .cons a r, args', ts, i, e, h, hi => by
-    simp only [elabArgs] at h
-    split at h
-    · simp at h
-    · rename_i a1 τ1 h1
-      split at h
-      · simp at h
-      · rename_i r1 ts1 hr
-        simp at h; obtain ⟨rfl, rfl⟩ := h
-        cases i with
-        | zero =>
-          simp [SArgs.toList] at hi; subst hi
-          exact ⟨a1, τ1, h1, by simp⟩
-        | succ j =>
-          simp [SArgs.toList] at hi
-          obtain ⟨e', τ, he, ht⟩ := elabArgs_get r r1 ts1 j e hr hi
-          exact ⟨e', τ, he, by simpa using ht⟩
-
 /-- **Const objects are not passed to `out` / `inout` parameters through projections**: if for every function of the called
     name some argument is a projection chain on a const scalar / vector / matrix and its parameter is `out` / `inout`
     (not const), the call — of a user function or of an intrinsic function — is never accepted -/
@@ -650,35 +609,214 @@ theorem elab_rejects_const_out_arg_chain {Γ : Env} {dbg : Bool} {name : Nat} {a
     ∀ r, elabE dbg Γ (.call name args) ≠ .ok r :=
   elab_rejects_out_arg_const ha fun c hc => by
     obtain ⟨i, p, base, ps, b0, τ0, hp, hi, hb, hcn, hio, hpc⟩ := hn c hc
-    obtain ⟨e', τ, he, hti⟩ := elabArgs_get args args' ts i _ ha hi
+    obtain ⟨e', τ, he, hti, _⟩ := elabArgs_get args args' ts i _ ha hi
     exact ⟨i, p, τ, hp, hti, hio, (chain_constNum ps base b0 τ0 _ hb hcn he).1, hpc⟩
 
-/-- **Values that are not lvalues are not written through members and swizzles**: for every chain of `.name` steps (struct
-    members, swizzles) on an rvalue (a function result, `a + b`, a constructor, a cast, `?:`, ...) the assignment family
-    never accepts the chain as its target.  **Partial**: chains containing a subscript `[i]` are missing — for them the
-    statement is false on the current code, see `rvalue_subscript_write_accepted`. -/
-theorem elab_rejects_rvalue_write_chain_partial {Γ : Env} {dbg : Bool} {o : BinOp} {base b : SExpr} {names : List String}
-    {b0 : IExpr} {τ0 : ETy} (ho : o.cls = .assign) (hb : elabE dbg Γ base = .ok (b0, τ0)) (hv : τ0.vt = .rvalue) :
-    ∀ r, elabE dbg Γ (.bin o (applyChain base (memberChain names)) b) ≠ .ok r := by
+theorem selected_is_cand {cands : List Cand} {args : List ETy} {i : Nat}
+    (h : resolve cands args = .selected i) : ∃ c ∈ cands, c.id = i := by
+  rcases resolve_cases cands args with hp | hr
+  · rw [hp] at h; simp at h
+  · rw [hr] at h
+    obtain ⟨rc, hf⟩ := resolveRanked_selected h
+    have hm : (i, rc) ∈ rankedList cands args :=
+      winners_subset (finals_subset (by rw [hf]; exact List.mem_cons_self))
+    obtain ⟨c, hc, hrc⟩ := mem_rankedList.mp hm
+    exact ⟨c, hc, (rankCand_id hrc).symm⟩
+
+theorem candsFrom_mem (name : Nat) : ∀ (fs : List FuncSig) (k : Nat) (c : Cand),
+    c ∈ RsslVerif.Model.Elab.candsFrom name fs k →
+    ∃ s, fs[c.id - k]? = some s ∧ s.name = name ∧ k ≤ c.id ∧ c.params = s.params
+  | [], _, _, h => by simp [RsslVerif.Model.Elab.candsFrom] at h
+  | s :: r, k, c, h => by
+    simp only [RsslVerif.Model.Elab.candsFrom] at h
+    split at h
+    · rename_i hn
+      rcases List.mem_cons.mp h with rfl | h
+      · exact ⟨s, by simp, hn, Nat.le_refl _, rfl⟩
+      · obtain ⟨s', h1, h2, h3, h4⟩ := candsFrom_mem name r (k + 1) c h
+        refine ⟨s', ?_, h2, by omega, h4⟩
+        have : c.id - k = (c.id - (k + 1)) + 1 := by omega
+        rw [this]; simpa using h1
+    · obtain ⟨s', h1, h2, h3, h4⟩ := candsFrom_mem name r (k + 1) c h
+      refine ⟨s', ?_, h2, by omega, h4⟩
+      have : c.id - k = (c.id - (k + 1)) + 1 := by omega
+      rw [this]; simpa using h1
+
+/-! ### writes through projections of objects that are not mutable (fixes 4575004, b359800, 3758fdd)
+
+`check_mutable_place` looks at **every object on the way** from the written part to the variable, so the chain theorems no
+longer depend on the type the member / element happens to be given: they hold for const **structs** (a struct member has the
+member's declared type, without the object's `const`), for arrays of const elements as a whole, and for subscripts of values
+that are not lvalues (`ArraySubscript` is always typed as an lvalue).  The former witnesses `const_struct_member_write_accepted`,
+`rvalue_subscript_write_accepted`, `const_array_assignment_accepted` are rejected now (examples below).
+
+`NotMutable Γ τ0`: the base is not an lvalue, or its type is const (`Spec.ElabX.ConstTy`: const modifier, or array of const
+elements).  `NoResourceStep`: no `[i]` of the chain subscripts a buffer / texture — an element of a resource is not part of
+the value of the handle (`b[i].x = ..` through the implicitly-const global `RWStructuredBuffer<float4> b` is a legal write). -/
+
+/-- the base of a chain that must not be written through -/
+def NotMutable (Γ : Env) (τ0 : ETy) : Prop := τ0.vt = .rvalue ∨ ConstTy Γ τ0.ty
+
+/-- **Objects that are not mutable are not written through any projection chain** (assignment family): for every chain of
+    struct members, swizzles, matrix swizzles and subscripts, of any length, on a base that is const — scalar, vector,
+    matrix, **struct**, array of const elements — or not an lvalue (function result, `a + b`, constructor, cast, ...) -/
+theorem elab_rejects_write_chain {Γ : Env} {dbg : Bool} {o : BinOp} {base b : SExpr} {ps : List Proj}
+    {b0 : IExpr} {τ0 : ETy} (ho : o.cls = .assign) (hb : elabE dbg Γ base = .ok (b0, τ0)) (hc : NotMutable Γ τ0)
+    (hn : NoResourceStep dbg Γ base ps) : ∀ r, elabE dbg Γ (.bin o (applyChain base ps) b) ≠ .ok r := by
   intro r h
-  cases hm : elabE dbg Γ (applyChain base (memberChain names)) with
-  | error m => simp [elabE, hm] at h
-  | ok p =>
-    obtain ⟨n, τ'⟩ := p
-    exact elab_rejects_assign_to_rvalue ho hm (chain_members_rvalue names base b0 τ0 _ hb hv hm) r h
+  obtain ⟨a', τa, ha, hp⟩ := elabE_assign_inv ho h
+  have hplace := checkMutablePlace_sound a' τa (elab_sound ha) hp
+  exact not_place_of_bad_base (chain_projOf ps base b0 τ0 _ hb hn ha) (elab_sound hb) hc hplace
 
-/-- the same for `out` / `inout` arguments.  **Partial** in the same way (no subscript steps). -/
-theorem elab_rejects_rvalue_out_arg_chain_partial {Γ : Env} {dbg : Bool} {name : Nat} {args : SArgs} {args' : IArgs}
-    {ts : List ETy} (ha : elabArgs dbg Γ args = .ok (args', ts))
-    (hn : ∀ c ∈ candidates Γ name, ∃ (i : Nat) (p : Param) (base : SExpr) (names : List String) (b0 : IExpr) (τ0 : ETy),
-      c.params[i]? = some p ∧ (SArgs.toList args)[i]? = some (applyChain base (memberChain names)) ∧
-      elabE dbg Γ base = .ok (b0, τ0) ∧ τ0.vt = .rvalue ∧ p.io.needsLvalue = true) :
+/-- the same for `++` / `--` -/
+theorem elab_rejects_increment_chain {Γ : Env} {dbg : Bool} {o : UnOp} {base : SExpr} {ps : List Proj}
+    {b0 : IExpr} {τ0 : ETy}
+    (ho : o = .prefixIncrement ∨ o = .prefixDecrement ∨ o = .postfixIncrement ∨ o = .postfixDecrement)
+    (hb : elabE dbg Γ base = .ok (b0, τ0)) (hc : NotMutable Γ τ0) (hn : NoResourceStep dbg Γ base ps) :
+    ∀ r, elabE dbg Γ (.un o (applyChain base ps)) ≠ .ok r := by
+  intro r h
+  obtain ⟨e', τ, he, hp⟩ := elabE_incr_inv ho h
+  have hplace := checkMutablePlace_sound e' τ (elab_sound he) hp
+  exact not_place_of_bad_base (chain_projOf ps base b0 τ0 _ hb hn he) (elab_sound hb) hc hplace
+
+/-- the same for `out` / `inout` arguments of user and intrinsic functions: if for every function of the called name some
+    argument is a projection chain on a base that is not mutable and its parameter is `out` / `inout`, the call is never
+    accepted -/
+theorem elab_rejects_out_arg_chain {Γ : Env} {dbg : Bool} {name : Nat} {args : SArgs}
+    (hn : ∀ c ∈ candidates Γ name, ∃ (i : Nat) (p : Param) (base : SExpr) (ps : List Proj) (b0 : IExpr) (τ0 : ETy),
+      c.params[i]? = some p ∧ (SArgs.toList args)[i]? = some (applyChain base ps) ∧
+      elabE dbg Γ base = .ok (b0, τ0) ∧ NotMutable Γ τ0 ∧ p.io.needsLvalue = true ∧ NoResourceStep dbg Γ base ps) :
+    ∀ r, elabE dbg Γ (.call name args) ≠ .ok r := by
+  intro r h
+  obtain ⟨as1, ts, ha, hcall⟩ := elabE_call_inv h
+  obtain ⟨id, s, as'', hsel, hs, hca, hco, _, _⟩ := elabCall_inv hcall
+  obtain ⟨c, hc, hid⟩ := selected_is_cand hsel
+  obtain ⟨s', hs', _, _, hps⟩ := candsFrom_mem _ _ 0 c hc
+  simp at hs'
+  rw [hid, hs] at hs'
+  simp at hs'; subst hs'
+  obtain ⟨i, p, base, ps, b0, τ0, hp, hi, hb, hbad, hio, hnr⟩ := hn c hc
+  rw [hps] at hp
+  obtain ⟨e', τ, he, hti, hai⟩ := elabArgs_get args as1 ts i _ ha hi
+  obtain ⟨e'', t', hai', hcv⟩ := castArgs_get s.params as1 ts as'' i p e' τ hca hp hai hti
+  have hchk := checkOutArgs_get s.params as'' i p e'' hco hp hai' hio
+  have hty := elab_sound he
+  obtain ⟨_, τ'', h1, _, _⟩ := convert_type hty hcv
+  have hplace := checkMutablePlace_sound e'' τ'' h1 hchk
+  have heq := place_not_converted hty hcv hplace
+  subst heq
+  exact not_place_of_bad_base (chain_projOf ps base b0 τ0 _ hb hnr he) (elab_sound hb) hbad hplace
+
+/-- a const modifier makes the base not mutable, whatever its layer (struct, array, numeric) -/
+theorem notMutable_of_const {Γ : Env} {τ0 : ETy} (h : τ0.ty.mod.isConst = true) : NotMutable Γ τ0 := Or.inr (.mod h)
+
+/-- an array of const elements is not mutable although its own type carries no modifier -/
+theorem notMutable_of_const_elements {Γ : Env} {τ0 : ETy} {id len : Nat} {elem : Ty} (hm : τ0.ty.mod = {})
+    (hl : τ0.ty.layer = .other id) (ho : Γ.others[id]? = some (.array elem len)) (hc : elem.mod.isConst = true) :
+    NotMutable Γ τ0 := Or.inr (.array hm hl ho (.mod hc))
+
+/-- **A member of a const struct is never written**, however deep: `const S s; s.q = ..`, `s.v.x += ..`, `s.a[i] = ..`
+    (the class of the former witness `const_struct_member_write_accepted`) -/
+theorem elab_rejects_const_struct_write_chain {Γ : Env} {dbg : Bool} {o : BinOp} {base b : SExpr} {ps : List Proj}
+    {b0 : IExpr} {τ0 : ETy} {sid : Nat} {ms : List (String × Ty)} (ho : o.cls = .assign)
+    (hb : elabE dbg Γ base = .ok (b0, τ0)) (hc : τ0.ty.mod.isConst = true) (_hl : τ0.ty.layer = .other sid)
+    (_hs : Γ.others[sid]? = some (.struct ms)) (hn : NoResourceStep dbg Γ base ps) :
+    ∀ r, elabE dbg Γ (.bin o (applyChain base ps) b) ≠ .ok r :=
+  elab_rejects_write_chain ho hb (notMutable_of_const hc) hn
+
+/-- **An array of const elements is never assigned as a whole** (`const float a[3]; a = a`, `a += a`; the class of the former
+    witness `const_array_assignment_accepted`), nor written through any chain -/
+theorem elab_rejects_const_array_assignment {Γ : Env} {dbg : Bool} {o : BinOp} {base b : SExpr} {b0 : IExpr} {τ0 : ETy}
+    {id len : Nat} {elem : Ty} (ho : o.cls = .assign) (hb : elabE dbg Γ base = .ok (b0, τ0)) (hm : τ0.ty.mod = {})
+    (hl : τ0.ty.layer = .other id) (hd : Γ.others[id]? = some (.array elem len)) (hc : elem.mod.isConst = true) :
+    ∀ r, elabE dbg Γ (.bin o base b) ≠ .ok r :=
+  elab_rejects_write_chain (ps := []) ho hb (notMutable_of_const_elements hm hl hd hc) trivial
+
+/-- **Values that are not lvalues are not written through any chain** — members, swizzles **and subscripts**
+    (`f()[0] = ..`, `(a + b)[i].x = ..`, `float3(a)[0]++`; the class of the former witness `rvalue_subscript_write_accepted`).
+    This is the former `elab_rejects_rvalue_write_chain_partial` without its restriction to `.name` steps. -/
+theorem elab_rejects_rvalue_write_chain {Γ : Env} {dbg : Bool} {o : BinOp} {base b : SExpr} {ps : List Proj}
+    {b0 : IExpr} {τ0 : ETy} (ho : o.cls = .assign) (hb : elabE dbg Γ base = .ok (b0, τ0)) (hv : τ0.vt = .rvalue)
+    (hn : NoResourceStep dbg Γ base ps) : ∀ r, elabE dbg Γ (.bin o (applyChain base ps) b) ≠ .ok r :=
+  elab_rejects_write_chain ho hb (Or.inl hv) hn
+
+/-- the same for `out` / `inout` arguments (the former `elab_rejects_rvalue_out_arg_chain_partial`, now with subscripts) -/
+theorem elab_rejects_rvalue_out_arg_chain {Γ : Env} {dbg : Bool} {name : Nat} {args : SArgs}
+    (hn : ∀ c ∈ candidates Γ name, ∃ (i : Nat) (p : Param) (base : SExpr) (ps : List Proj) (b0 : IExpr) (τ0 : ETy),
+      c.params[i]? = some p ∧ (SArgs.toList args)[i]? = some (applyChain base ps) ∧
+      elabE dbg Γ base = .ok (b0, τ0) ∧ τ0.vt = .rvalue ∧ p.io.needsLvalue = true ∧ NoResourceStep dbg Γ base ps) :
     ∀ r, elabE dbg Γ (.call name args) ≠ .ok r :=
-  elab_rejects_out_arg_rvalue ha fun c hc => by
-    obtain ⟨i, p, base, names, b0, τ0, hp, hi, hb, hv, hio⟩ := hn c hc
-    obtain ⟨e', τ, he, hti⟩ := elabArgs_get args args' ts i _ ha hi
-    exact ⟨i, p, τ, hp, hti, hio, chain_members_rvalue names base b0 τ0 _ hb hv he⟩
+  elab_rejects_out_arg_chain fun c hc => by
+    obtain ⟨i, p, base, ps, b0, τ0, h1, h2, h3, hv, h5, h6⟩ := hn c hc
+    exact ⟨i, p, base, ps, b0, τ0, h1, h2, h3, Or.inl hv, h5, h6⟩
 
+/-- chains of `.name` steps (the former hypothesis of the `_partial` theorems) never subscript a resource -/
+example {Γ : Env} {dbg : Bool} (base : SExpr) (names : List String) : NoResourceStep dbg Γ base (memberChain names) :=
+  noResourceStep_members names base
+
+/-! ### what an accepted write looks like -/
+
+/-- **The target of an accepted assignment is a mutable place** (`Spec.ElabX.MutablePlace`): the target and every object on
+    the way from the written part to the variable is a non-const lvalue under the IR's typing judgment -/
+theorem elab_assign_target_is_place {Γ : Env} {dbg : Bool} {o : BinOp} {a b : SExpr} {e' : IExpr} {τ : ETy}
+    (ho : o.cls = .assign) (h : elabE dbg Γ (.bin o a b) = .ok (e', τ)) :
+    ∃ i a' b', e' = .op i (.cons a' (.cons b' .nil)) ∧ MutablePlace Γ a' := by
+  obtain ⟨i, a', b', ta, tb, rfl, h1, _⟩ := elab_assign_exact ho h
+  obtain ⟨a1, τa, ha, hp⟩ := elabE_assign_inv ho h
+  refine ⟨i, a', b', rfl, ?_⟩
+  -- the left operand of the node is the elaborated target
+  have : a' = a1 := by
+    simp only [elabE, ha] at h
+    split at h
+    · simp at h
+    · simp only [ho] at h
+      split at h
+      · simp at h
+      · rename_i n τn hn
+        obtain ⟨hnn, _⟩ := selfCheck_type h
+        unfold elabAssign at hn
+        repeat' split at hn
+        all_goals (first | (simp at hn; done) | skip)
+        all_goals (
+          simp only [Except.ok.injEq, Prod.mk.injEq] at hn
+          obtain ⟨rfl, _⟩ := hn
+          simp at hnn
+          exact hnn.2.1)
+  subst this
+  exact checkMutablePlace_sound _ τa (elab_sound ha) hp
+
+/-- **The operand of an accepted `++` / `--` is a mutable place** -/
+theorem elab_increment_operand_is_place {Γ : Env} {dbg : Bool} {o : UnOp} {e : SExpr} {r : IExpr × ETy}
+    (ho : o = .prefixIncrement ∨ o = .prefixDecrement ∨ o = .postfixIncrement ∨ o = .postfixDecrement)
+    (h : elabE dbg Γ (.un o e) = .ok r) : ∃ e' τ, elabE dbg Γ e = .ok (e', τ) ∧ MutablePlace Γ e' := by
+  obtain ⟨e', τ, he, hp⟩ := elabE_incr_inv ho h
+  exact ⟨e', τ, he, checkMutablePlace_sound e' τ (elab_sound he) hp⟩
+
+/-- **`out` / `inout` arguments of an accepted call are mutable places** — of user and intrinsic functions; in particular
+    none is the result of a conversion (a `Cast` is an rvalue): the class of the former known finding
+    `void g(out int x); int1 a; g(a)` -/
+theorem elab_out_args_are_places {Γ : Env} {dbg : Bool} {name : Nat} {args : SArgs} {e' : IExpr} {τ : ETy}
+    (h : elabE dbg Γ (.call name args) = .ok (e', τ)) :
+    ∃ id s as', e' = .call id as' ∧ Γ.funcs[id]? = some s ∧ OutArgsPlaces Γ s.params as' := by
+  obtain ⟨as1, ts, ha, hcall⟩ := elabE_call_inv h
+  have iha := elabArgs_sound_any dbg args as1 ts ha
+  obtain ⟨id, s, as'', _, hs, hca, hco, rfl, rfl⟩ := elabCall_inv hcall
+  obtain ⟨us, h1, _⟩ := castArgs_exact s.params as1 ts as'' iha hca
+  exact ⟨id, s, as'', rfl, hs, checkOutArgs_places s.params as'' us h1 hco⟩
+
+/-- a place is not a `Cast`, not a literal, not a constructor: conversions and constructions are rvalues -/
+theorem place_is_not_a_conversion {Γ : Env} {e : IExpr} (h : MutablePlace Γ e) :
+    (∀ t x, e ≠ .cast t x) ∧ (∀ k, e ≠ .lit k) ∧ (∀ t ar as, e ≠ .ctor t ar as) := by
+  refine ⟨?_, ?_, ?_⟩
+  · intro t x heq; subst heq
+    cases h with
+    | root ht hv _ _ => cases ht; simp [Ty.r] at hv
+  · intro k heq; subst heq
+    cases h with
+    | root ht hv _ _ => cases ht; simp [Ty.r] at hv
+  · intro t ar as heq; subst heq
+    cases h with
+    | root ht hv _ _ => cases ht; simp [Ty.r] at hv
 
 /-! ## the rejection classes of the property, by name -/
 
@@ -721,35 +859,6 @@ theorem elab_rejects_rvalue_out_arg {Γ : Env} {dbg : Bool} {name : Nat} {args :
 
 /-! ## intrinsic functions -/
 
-theorem selected_is_cand {cands : List Cand} {args : List ETy} {i : Nat}
-    (h : resolve cands args = .selected i) : ∃ c ∈ cands, c.id = i := by
-  rcases resolve_cases cands args with hp | hr
-  · rw [hp] at h; simp at h
-  · rw [hr] at h
-    obtain ⟨rc, hf⟩ := resolveRanked_selected h
-    have hm : (i, rc) ∈ rankedList cands args :=
-      winners_subset (finals_subset (by rw [hf]; exact List.mem_cons_self))
-    obtain ⟨c, hc, hrc⟩ := mem_rankedList.mp hm
-    exact ⟨c, hc, (rankCand_id hrc).symm⟩
-
-theorem candsFrom_mem (name : Nat) : ∀ (fs : List FuncSig) (k : Nat) (c : Cand),
-    c ∈ RsslVerif.Model.Elab.candsFrom name fs k → ∃ s, fs[c.id - k]? = some s ∧ s.name = name ∧ k ≤ c.id
-  | [], _, _, h => by simp [RsslVerif.Model.Elab.candsFrom] at h
-  | s :: r, k, c, h => by
-    simp only [RsslVerif.Model.Elab.candsFrom] at h
-    split at h
-    · rename_i hn
-      rcases List.mem_cons.mp h with rfl | h
-      · exact ⟨s, by simp, hn, Nat.le_refl _⟩
-      · obtain ⟨s', h1, h2, h3⟩ := candsFrom_mem name r (k + 1) c h
-        refine ⟨s', ?_, h2, by omega⟩
-        have : c.id - k = (c.id - (k + 1)) + 1 := by omega
-        rw [this]; simpa using h1
-    · obtain ⟨s', h1, h2, h3⟩ := candsFrom_mem name r (k + 1) c h
-      refine ⟨s', ?_, h2, by omega⟩
-      have : c.id - k = (c.id - (k + 1)) + 1 := by omega
-      rw [this]; simpa using h1
-
 /-- **Accepted calls of intrinsic functions resolve into the re-extracted signature table.**  In an environment whose function
     registry starts with the intrinsic functions (`Module::create`) and whose user functions have other names, an accepted
     call of the intrinsic named `names[n]` elaborates to `Call(FunctionId(f), args)` where entry `f` of
@@ -765,40 +874,16 @@ theorem elab_intrinsic_call_exact {Γ : Env} {dbg : Bool} {v n : Nat} {user : Li
   obtain ⟨id, s, as', us, rfl, hs, rfl, hargs, hmatch⟩ := elab_call_args_exact h
   -- the selected id is one of the candidates of that name
   have hname : s.name = RsslVerif.Model.Intrinsics.intrinsicBase + n := by
-    simp only [elabE] at h
-    split at h
-    · simp at h
-    · split at h
-      · simp at h
-      · split at h
-        · simp at h
-        · split at h
-          · simp at h
-          · rename_i nn τn hn
-            obtain ⟨hnn, _⟩ := selfCheck_type h
-            unfold elabCall at hn
-            split at hn
-            · simp at hn
-            · simp at hn
-            · simp at hn
-            · rename_i id' hsel
-              obtain ⟨c, hc, hid⟩ := selected_is_cand hsel
-              obtain ⟨s', hs', hn', _⟩ := candsFrom_mem _ _ 0 c hc
-              split at hn
-              · simp at hn
-              · rename_i s'' hs''
-                split at hn
-                · simp at hn
-                · simp at hn
-                  obtain ⟨hcall, _⟩ := hn
-                  rw [← hcall] at hnn
-                  simp at hnn
-                  obtain ⟨rfl, _⟩ := hnn
-                  simp at hs'
-                  rw [hid] at hs'
-                  rw [hs] at hs'
-                  simp at hs'; subst hs'
-                  exact hn'
+    obtain ⟨as1, ts, _, hn⟩ := elabE_call_inv h
+    obtain ⟨id', s'', _, hsel, hs'', _, _, hcall, _⟩ := elabCall_inv hn
+    simp at hcall
+    obtain ⟨rfl, _⟩ := hcall
+    obtain ⟨c, hc, hid⟩ := selected_is_cand hsel
+    obtain ⟨s', hs', hn', _, _⟩ := candsFrom_mem _ _ 0 c hc
+    simp at hs'
+    rw [hid, hs] at hs'
+    simp at hs'; subst hs'
+    exact hn'
   rw [hΓ] at hs
   by_cases hlt : id < (RsslVerif.Model.Intrinsics.intrinsicFuncs v).length
   · rw [List.getElem?_append_left hlt] at hs
@@ -949,38 +1034,36 @@ end
 theorem ids_in_range {Γ : Env} {dbg : Bool} {e : SExpr} {e' : IExpr} {τ : ETy} (h : elabE dbg Γ e = .ok (e', τ)) :
     IdsInRange Γ e' := ids_of_hasType e' τ (elab_sound h)
 
-/-! ## where the statements stop: witnesses replayed on the implementation (known findings) -/
+/-! ## the former witnesses (fixed: 4575004, b359800, 3758fdd) are rejected now -/
 
-/-- `struct S0 { int q; }; const S0 v0; float3 v1; const float v2[3]; float3 f0();` -/
+/-- `struct S0 { int q; }; const S0 v0; float3 v1; const float v2[3]; float3 f0(); int1 v3; void f1(out int); void f2(inout float);` -/
 def wEnv : Env :=
-  { vars := [⟨{ isConst := true }, .other 0⟩, ⟨{}, .vector .float32 3⟩, ⟨{}, .other 1⟩],
-    funcs := [⟨0, [], 0, ⟨{}, .vector .float32 3⟩⟩],
-    others := [.struct [("q", ⟨{}, .scalar .int32⟩)], .array ⟨{ isConst := true }, .scalar .float32⟩ 3] }
+  { vars := [⟨{ isConst := true }, .other 0⟩, ⟨{}, .vector .float32 3⟩, ⟨{}, .other 1⟩, ⟨{}, .vector .int32 1⟩],
+    funcs := [⟨0, [], 0, ⟨{}, .vector .float32 3⟩⟩, ⟨1, [⟨⟨{}, .scalar .int32⟩, .out⟩], 1, ⟨{}, .other 2⟩⟩,
+              ⟨2, [⟨⟨{}, .scalar .float32⟩, .inOut⟩], 1, ⟨{}, .other 2⟩⟩],
+    others := [.struct [("q", ⟨{}, .scalar .int32⟩)], .array ⟨{ isConst := true }, .scalar .float32⟩ 3, .void] }
 
-/-- **A member of a const struct is written.**  `const S0 v0; v0.q = 1` is accepted and elaborates to
-    `Assignment(StructMember(v0, S0, 0), 1)` of type `int` lvalue: the member access gives the member's declared type
-    and the object's value category, the object's `const` is lost.  So `elab_rejects_const_write_chain` cannot be
-    extended from const scalars / vectors / matrices to const structs. -/
-theorem const_struct_member_write_accepted :
-    (match elabE true wEnv (.bin .assignment (.member (.var 0) "q") (.lit .intLiteral)) with
-     | .ok (.op .assignment (.cons (.member (.var 0) 0 0) (.cons (.lit .int32) .nil)), τ) =>
-       decide (τ = ⟨⟨{}, .scalar .int32⟩, .lvalue⟩)
-     | _ => false) = true := by decide
+def wRejects (k : String) (e : SExpr) : Bool :=
+  match elabE true wEnv e with
+  | .error (.reject k') => k == k'
+  | _ => false
 
-/-- **An element of a function result is written.**  `float3 f0(); f0()[0] = 1` is accepted: `ArraySubscript` is typed as
-    an lvalue whatever its operand is.  So `elab_rejects_rvalue_write_chain_partial` cannot admit subscript steps. -/
-theorem rvalue_subscript_write_accepted :
-    (match elabE true wEnv (.bin .assignment (.index (.call 0 .nil) (.lit .intLiteral)) (.lit .intLiteral)) with
-     | .ok (.op .assignment (.cons (.index (.call 0 .nil) (.lit .uInt32)) (.cons (.lit .float32) .nil)), τ) =>
-       decide (τ = ⟨⟨{}, .scalar .float32⟩, .lvalue⟩)
-     | _ => false) = true := by decide
+/-- `v0.q = 1` and `++v0.q` (member of a const struct), `f0()[0] = 1` and `f1(f0()[0])`-style out arguments (element of a
+    function result), `v2 = v2` (array of const elements), `f1(v3)` (`int1` for `out int`: would need a `Cast`) and
+    `f2(v0.q)`-style out arguments of members of const objects are all rejected; the hypotheses of
+    `elab_rejects_write_chain` are satisfiable -/
+example :
+    (wRejects "MutableRequired" (.bin .assignment (.member (.var 0) "q") (.lit .intLiteral)) &&
+     wRejects "MutableRequired" (.un .prefixIncrement (.member (.var 0) "q")) &&
+     wRejects "LvalueRequired" (.bin .assignment (.index (.call 0 .nil) (.lit .intLiteral)) (.lit .intLiteral)) &&
+     wRejects "LvalueRequired" (.call 2 (.cons (.index (.call 0 .nil) (.lit .intLiteral)) .nil)) &&
+     wRejects "MutableRequired" (.bin .assignment (.var 2) (.var 2)) &&
+     wRejects "MutableRequired" (.bin .sumAssignment (.var 2) (.var 2)) &&
+     wRejects "LvalueRequired" (.call 1 (.cons (.var 3) .nil)) &&
+     wRejects "MutableRequired" (.call 1 (.cons (.member (.var 0) "q") .nil))) = true := by decide
 
-/-- **An array of const elements is assigned as a whole.**  `const float v2[3]; v2 = v2` is accepted: the array type
-    carries no modifier of its own. -/
-theorem const_array_assignment_accepted :
-    (match elabE true wEnv (.bin .assignment (.var 2) (.var 2)) with
-     | .ok (.op .assignment (.cons (.var 2) (.cons (.var 2) .nil)), τ) => decide (τ = ⟨⟨{}, .other 1⟩, .lvalue⟩)
-     | _ => false) = true := by decide
+example : NotMutable wEnv ⟨⟨{ isConst := true }, .other 0⟩, .lvalue⟩ := notMutable_of_const rfl
+example : NotMutable wEnv ⟨⟨{}, .other 1⟩, .lvalue⟩ := notMutable_of_const_elements rfl rfl rfl rfl
 
 /-! ## non-vacuity -/
 
